@@ -94,6 +94,8 @@ def frame_obligations(rep):
                 params, local, _d = effects.name_kinds(node)
                 if w.base in params or w.base in local:
                     continue
+                if effects.benign_memo_cache(q, node) == w.base:
+                    continue        # (a memo cache of immutable library objects, filled only here from the key alone)
                 writers.append(w.as_dict())
     common.structural(rep, 'C20/package/module-level tables (SQL_REGEX, KEYWORDS*, ...) are never written by a function',
                       'sqlparse', not writers, {'writers': writers})
